@@ -1,5 +1,6 @@
 (* C12 - Setters and accessors obey last-write-wins and keep derived flags in step. *)
-From MQ Require Import Model.Api Spec.Fields Proofs.BytesP Proofs.SetterP.
+From MQ Require Import Model.Codec Model.Api Model.Stream Spec.Fields Proofs.BytesP Proofs.SetterP Proofs.StreamP
+     Proofs.RoundP Proofs.DomP Properties.C01.
 From Coq Require Import List. Import ListNotations. Open Scope N_scope.
 
 (* Spec/Fields.v is a record of plain fields: every setter stores its
@@ -18,6 +19,30 @@ Theorem C12_refines : forall k h, Forall (fun c => applicable k c = true) h ->
   snapshot k (run_calls k h) = sp_snapshot k (sp_run k h).
 Proof. exact refines. Qed.
 Print Assumptions C12_refines.
+
+(* "The encoded frame reflects the same final state": for histories inside
+   the round-trip domain (arguments within MQTT's limits, the two
+   cross-field conditions of C01_api) WriteTo's frame, read by ReadPacket
+   under any delivery, yields a packet whose accessors return the
+   record-of-fields values - i.e. for each field the value most recently
+   set. (C01_api composed with C12_refines.) *)
+Theorem C12_frame_reflects : forall k h, k <> KUndefined ->
+  Forall (fun c => applicable k c = true) h -> Forall call_ok h ->
+  let p := run_calls k h in
+  cross_ok k p -> remaining_ok k p ->
+  exists bs p',
+    encode_pkt k p = Some bs
+    /\ (forall s rest, sbytes s = bs ++ rest -> avail (len bs) s = true ->
+         exists tr, read_packet s =
+           RP {| r_pkt := Some (k, p'); r_err := None; r_rest := sdrop (len bs) s;
+                 r_trace := tr; r_got := bs |})
+    /\ snapshot k p' = sp_snapshot k (sp_run k h).
+Proof.
+  intros k h Hk Ha Ho p Hc Hs.
+  destruct (C01_api k h Hk Ha Ho Hc Hs) as [bs [p' [E [R [S _]]]]].
+  exists bs, p'. split; [exact E|]. split; [exact R|]. rewrite S. apply C12_refines. exact Ha.
+Qed.
+Print Assumptions C12_frame_reflects.
 
 (* one step of the simulation, for any related states (not only reachable ones) *)
 Theorem C12_step : forall k c p s, applicable k c = true -> Rel k p s -> Rel k (step c p) (sp_step c s).
